@@ -235,6 +235,10 @@ func read[EntityT entity.Interface](def Definition, wrapper func(e *Entity) Enti
 
 	// Now that we ordered the operationPacks, we have the order of the Operations
 
+	if opsCount == 0 {
+		return *new(EntityT), fmt.Errorf("entity has no operations")
+	}
+
 	ops := make([]Operation, 0, opsCount)
 	var createTime lamport.Time
 	var editTime lamport.Time
